@@ -48,6 +48,7 @@ type ccWorld struct {
 	nonce uint64
 	chN   map[string]int // channel / token symbol (upper case) -> number
 	grpN  map[string]int
+	whale bool // user 0 holds 2^66 of every group (C09)
 	ids   map[string]int
 }
 
